@@ -56,7 +56,15 @@ SpawnViol(ev) ==
   \cup Chk("C06_FutureHoldApplies",
            (id \in env.tohold \/ (env.holdpt # NoPoint /\ Pt(id) > env.holdpt)) => t.held)
   \cup Chk("C46_NothingBeforeStart", Opt.manual \/ Pt(id) >= W.start)
-SpawnCov(ev) == {"C07_PoolWithinBounds", "C26_NoDuplicateProxy"}
+  \cup Chk("C08_ChildCarriesParentFlows", ev.haspar => ev.parflows \subseteq t.flows)
+MergeViol(ev) ==
+     Chk("C08_MergeIsUnion", ev.after = (IF ev.added = {} THEN ev.before ELSE ev.before \cup ev.added))
+  \cup Chk("C08_ChildCarriesParentFlows", ev.before \subseteq ev.after)
+FlowViol(ev) ==
+     Chk("C08_NewFlowIsFresh", (ev.asked = -1) => (ev.got \notin env.flowsEver /\ ev.got \notin ev.known
+                                                   /\ \A x \in env.flowsEver : ev.got > x))
+SpawnCov(ev) == {"C07_PoolWithinBounds", "C26_NoDuplicateProxy"} \cup Cov("C08_ChildCarriesParentFlows", ev.haspar)
+  \cup Cov("C08_ChildCarriesSeveralFlows", ev.haspar /\ Cardinality(ev.parflows) > 1)
   \cup Cov("C06_FutureHoldApplies", ev.t.id \in env.tohold \/ (env.holdpt # NoPoint /\ Pt(ev.t.id) > env.holdpt))
 
 \* remove: a proxy leaves the pool
@@ -121,12 +129,29 @@ PrepareViol(ev) ==
   \cup Chk("C31_AfterPreviousSucceeded", (nm \in W.seqtasks /\ auto) => SeqPrereqSat(W, nm, p, done))
   \cup Chk("C46_NothingBeforeStart", auto => p >= W.start)
   \cup Chk("C32_ExpiredNeverSubmits", ~("expired" \in t.outs))
+  \cup Chk("C08_NoRerunInFlow",
+           (~ev.manual /\ id \notin env.trig.ids) =>
+              ~\E c \in env.completedIn : c[1] = id /\ c[2] \cap t.flows # {} /\ ~h.retry)
+  \cup Chk("C28_EachMemberOnce", (id \in env.trig.ids /\ env.trig.dflt) => (env.trig.n[id] = 0 \/ h.retry))
+  \cup Chk("C28_InGroupOrder",
+           \* (judged for triggers into the task's own flows, and for members without a live job at the time)
+           (id \in env.trig.ids /\ ~ev.manual /\ env.trig.dflt /\ id \notin env.trig.live) =>
+              \A L \in Deps(W, nm, p) :
+                 Eval(L.lhs, {a \in Atoms(L.lhs) :
+                                \/ InitSat(W, a, p)
+                                \/ <<a.t, AtomPoint(W, a, p)>> \notin env.trig.ids
+                                \/ <<a.t, AtomPoint(W, a, p)>> \in env.trig.live
+                                \/ AtomKey(W, a, p) \in env.trig.done}))
 PrepareCov(ev) ==
   LET t == ev.t  id == t.id  nm == Name(id) h == HistOf(id) IN
      {"C01_SubmitOnlyIfSatisfied"}
   \cup Cov("C01_SubmitWithPrereqs", Deps(W, nm, Pt(id)) # {})
   \cup Cov("C02_AtMostOncePerFlow", h.n > 0)
   \cup Cov("C31_NoOverlap", nm \in W.seqtasks)
+  \cup Cov("C28_EachMemberOnce", id \in env.trig.ids)
+  \cup Cov("C28_InGroupOrder", id \in env.trig.ids /\ ~ev.manual /\
+             \E L \in Deps(W, nm, Pt(id)) : \E a \in Atoms(L.lhs) : <<a.t, AtomPoint(W, a, Pt(id))>> \in env.trig.ids)
+  \cup Cov("C08_NoRerunInFlow", \E c \in env.completedIn : c[1] = id)
   \cup Cov("C43_NoSubmitBeyondStopPoint", env.stop # NoPoint)
   \cup Cov("C46_NothingBeforeStart", W.start > W.icp)
   \cup Cov("C31_AfterPreviousSucceeded", nm \in W.seqtasks /\ PrevPoint(W, nm, Pt(id)) # NoPoint)
@@ -137,6 +162,8 @@ Backward(b, m) ==
   \/ m = "failed" /\ StatusRank(b.st) > StatusRank("failed")
   \/ m = "submit-failed" /\ StatusRank(b.st) > StatusRank("submit-failed")
   \/ m = "submitted" /\ StatusRank(b.st) >= StatusRank("submitted")
+StdOutsT == {"submitted", "started", "succeeded", "failed", "submit-failed", "expired"}
+ImpliedT(m) == CASE m \in {"succeeded", "failed"} -> {"submitted", "started"} [] m = "started" -> {"submitted"} [] OTHER -> {}
 MsgViol(ev) ==
   LET b == ev.b  t == ev.t  id == t.id  nm == Name(id)  h == HistOf(id)
       stale == ev.flag = "received" /\ ev.sub # b.sub /\ ev.inpool /\ ~ev.forced
@@ -146,10 +173,24 @@ MsgViol(ev) ==
   IN
      Chk("C10_StaleIgnored", stale => (t.st = b.st /\ t.outs = b.outs /\ ev.ret = "done"))
   \cup Chk("C10_BackwardPolls", back => (ev.ret = "poll" /\ t.st = b.st))
+  \* a message that was already received and processed for this very job changes nothing when it arrives again
+  \cup Chk("C10_DuplicateHarmless",
+           (ev.flag = "received" /\ ev.inpool /\ ~ev.forced /\ <<id, ev.sub, ev.msg>> \in env.seenMsgs
+            /\ ~(b.st = "waiting" /\ b.etry = 0 /\ b.stry = 0) /\ id \notin env.tainted)
+              => (t.st = b.st /\ t.outs = b.outs))
+  \* recorded separately (known finding): a task re-spawned by a manual trigger keeps the submit number of its
+  \* last job until it is prepared again; a late copy of that job's message is then taken for the new run
+  \cup Chk("C10_DuplicateHarmless_RetriggeredBeforeNewJob",
+           (ev.flag = "received" /\ ev.inpool /\ ~ev.forced /\ <<id, ev.sub, ev.msg>> \in env.seenMsgs
+            /\ b.st = "waiting" /\ b.etry = 0 /\ b.stry = 0)
+              => (t.st = b.st /\ t.outs = b.outs))
   \cup Chk("C09_OutputsMonotone", b.outs \subseteq t.outs)
   \cup Chk("C09_ImpliedOutputs",   \* judged when the outermost message has been fully processed
            (~ev.forced /\ "msg" \notin ev.cx /\ ("succeeded" \in t.outs \/ "failed" \in t.outs))
               => {"submitted", "started"} \subseteq t.outs)
+  \cup Chk("C29_ImpliedAndExact",
+           (ev.forced /\ ev.msg \in (StdOutsT \cup W.customs[nm])) =>
+              t.outs = b.outs \cup {ev.msg} \cup ImpliedT(ev.msg))
   \cup Chk("C02_FailOutputOnlyWhenNoRetry", (newfail /\ ~Opt.manual) => h.efail >= W.eretry[nm])
   \cup Chk("C02_SubmitFailOutputOnlyWhenNoRetry", (newsubfail /\ ~Opt.manual) => h.sfail >= W.sretry[nm])
 MsgCov(ev) ==
@@ -160,6 +201,10 @@ MsgCov(ev) ==
   \cup Cov("C02_FailOutputOnlyWhenNoRetry", "failed" \in t.outs /\ "failed" \notin b.outs)
   \cup Cov("C02_SubmitFailOutputOnlyWhenNoRetry", "submit-failed" \in t.outs /\ "submit-failed" \notin b.outs)
   \cup Cov("C10_OutOfOrder", ev.msg = "started" /\ b.st = "preparing")
+  \cup Cov("C10_DuplicateHarmless", ev.flag = "received" /\ ev.inpool /\ <<t.id, ev.sub, ev.msg>> \in env.seenMsgs)
+  \cup Cov("C10_DuplicateWhileRetryWaiting", ev.flag = "received" /\ ev.inpool /\ b.st = "waiting"
+                                                /\ <<t.id, ev.sub, ev.msg>> \in env.seenMsgs)
+  \cup Cov("C29_ImpliedAndExact", ev.forced)
 
 \* q_release: IndepQueueManager released tasks
 QMembers(ev, q) == ev.members[q]
@@ -231,6 +276,56 @@ LoopEndCov(ev) ==
   \cup Cov("C45_AfterRestart",
            env.restarted /\ \E i \in SyncIds(ev) : \E L \in Deps(W, Name(i), Pt(i)) : \E a \in Atoms(L.lhs) :
               a.abs /\ AtomKey(W, a, Pt(i)) \in done)
+
+\* commands
+AllAtomKeysT(t, p) == {AtomKey(W, a, p) : a \in UNION {Atoms(L.lhs) : L \in Deps(W, t, p)}}
+CmdDoneViol(ev) ==
+  LET pre == env.cmdpre  ids == env.cmdids IN
+  CASE env.cmdname = "remove_tasks" ->
+          Chk("C30_FlowsRemoved",
+              \A i \in ids \cap DOMAIN pre :
+                 \/ i \notin SyncIds(ev)
+                 \/ (env.cmdflow # {} /\ SyncRec(ev, i).flows = pre[i].flows \ {x \in pre[i].flows : ToString(x) \in env.cmdflow}))
+       \cup Chk("C30_OthersUnchanged",
+              \A i \in DOMAIN pre \ ids :
+                 IF i \in SyncIds(ev) THEN SyncRec(ev, i).outs = pre[i].outs /\ SyncRec(ev, i).flows = pre[i].flows
+                                             /\ SyncRec(ev, i).st = pre[i].st
+                 ELSE pre[i].st = "waiting" /\ pre[i].sub = 0)
+    [] env.cmdname = "set" ->
+          Chk("C29_ChildrenAsNatural",
+              \A k \in env.forcedSince : \A c \in Children(W, k[1], k[2], k[3]) :
+                 <<c.t, c.p>> \in SyncIds(ev) => k \in SyncRec(ev, <<c.t, c.p>>).sat)
+       \cup Chk("C29_NeverActive",
+              \A i \in ids \cap SyncIds(ev) : (i \in DOMAIN pre /\ pre[i].st \notin {"submitted", "running"})
+                                                   => SyncRec(ev, i).st \notin {"submitted", "running"})
+       \cup Chk("C29_PrereqOnlyReal",
+              \A i \in SyncIds(ev) : SyncRec(ev, i).sat \subseteq
+                   (AllAtomKeysT(Name(i), Pt(i)) \cup {<<Name(i), PrevPoint(W, Name(i), Pt(i)), "succeeded">>}))
+    [] env.cmdname = "reload_workflow" ->
+          Chk("C27_ReloadProjection",
+              \A i \in DOMAIN pre :
+                 \/ /\ i \in SyncIds(ev)
+                    \* (a reload first lets preparing tasks finish submitting: those may move on to submitted;
+                    \*  it also recomputes the runahead limit and releases tasks now within it)
+                    /\ LET r == SyncRec(ev, i) IN
+                          /\ (r.st = pre[i].st \/ pre[i].st = "preparing")
+                          /\ r.flows = pre[i].flows /\ r.sub = pre[i].sub /\ r.held = pre[i].held
+                          /\ (r.outs = pre[i].outs \/ (pre[i].st = "preparing" /\ pre[i].outs \subseteq r.outs))
+                          /\ r.sat = pre[i].sat
+                          /\ (~pre[i].rh => ~r.rh)
+                 \/ PrintT(<<"DIAG", tid, "reload", i, pre[i],
+                             IF i \in SyncIds(ev) THEN SyncRec(ev, i) ELSE "gone">>) = FALSE)
+    [] OTHER -> {}
+\* recorded separately (known finding): the queued flag (and the task's place in its queue) is not carried over
+ReloadQueuedViol(ev) ==
+  IF env.cmdname # "reload_workflow" THEN {}
+  ELSE Chk("C27_ReloadProjection_QueuedFlagLost",
+           \A i \in DOMAIN env.cmdpre : (i \in SyncIds(ev) /\ env.cmdpre[i].queued) => SyncRec(ev, i).queued)
+CmdDoneCov(ev) == Cov("C30_FlowsRemoved", env.cmdname = "remove_tasks" /\ env.cmdids \cap DOMAIN env.cmdpre # {})
+  \cup Cov("C30_OthersUnchanged", env.cmdname = "remove_tasks" /\ DOMAIN env.cmdpre \ env.cmdids # {})
+  \cup Cov("C29_ChildrenAsNatural", env.cmdname = "set" /\ env.forcedSince # {})
+  \cup Cov("C29_NeverActive", env.cmdname = "set")
+  \cup Cov("C27_ReloadProjection", env.cmdname = "reload_workflow" /\ DOMAIN env.cmdpre # {})
 
 \* boot after a stop: what was restored from the database
 RestoredTask(b) == [st |-> IF b.st = "preparing" THEN "waiting" ELSE b.st,
@@ -387,6 +482,7 @@ NextPool(ev) ==
     [] ev.e = "remove" -> Del(pool, ev.t.id)
     [] ev.e \in {"state", "msg"} -> IF ev.t.id \in DOMAIN pool THEN Upd(pool, ev.t.id, ev.t) ELSE pool
     [] ev.e = "prepare" -> IF ev.t.id \in DOMAIN pool THEN Upd(pool, ev.t.id, ev.t) ELSE pool
+    [] ev.e = "merge" -> IF ev.id \in DOMAIN pool /\ ev.inpool THEN [pool EXCEPT ![ev.id].flows = ev.after] ELSE pool
     [] ev.e \in {"loop_end", "boot", "restored", "cmd_done"} -> [i \in SyncIds(ev) |-> SyncRec(ev, i)]   \* re-synchronise
     [] ev.e \in {"sched_stop", "crash"} -> <<>>          \* the process is gone; the pool is rebuilt from the DB
     [] OTHER -> pool
@@ -416,8 +512,30 @@ NextEnv(ev) ==
                                      !.committedAtCrash = env.committed, !.jobsSinceBoot = {}, !.spawnedSinceBoot = {},
                                      !.earlyCrash = @ \/ ~env.poolcommitted]
     [] ev.e = "env_launch" -> [env EXCEPT !.jobs = @ \cup {ev.job}, !.hadDup = @ \/ ev.job \in env.jobs,
-                                          !.jobsSinceBoot = @ \cup {ev.job}]
-    [] ev.e = "spawn" -> [env EXCEPT !.spawnedSinceBoot = @ \cup {ev.t.id}]
+                                          !.jobsSinceBoot = @ \cup {ev.job},
+                                          \* a fresh run of this job: what the previous run sent no longer counts
+                                          !.seenMsgs = {m \in @ : ~(m[1] = <<ev.job[1], ev.job[2]>> /\ m[2] = ev.job[3])}]
+    [] ev.e = "spawn" -> [env EXCEPT !.spawnedSinceBoot = @ \cup {ev.t.id}, !.flowsEver = @ \cup ev.t.flows]
+    [] ev.e = "flow" -> [env EXCEPT !.flowsEver = @ \cup {ev.got} \cup ev.known]
+    [] ev.e = "cmd" ->
+         [env EXCEPT !.cmdpre = pool, !.cmdname = ev.name, !.cmdids = ev.ids, !.cmdflow = ev.flow, !.forcedSince = {},
+                     !.trig = IF ev.name = "force_trigger_tasks"
+                              THEN [ids |-> ev.ids, done |-> {}, n |-> [i \in ev.ids |-> 0], dflt |-> ev.flow = {},
+                                    live |-> {i \in ev.ids \cap DOMAIN pool : pool[i].st \in ActiveStatuses}] ELSE @,
+                     !.completedIn = IF ev.name \in {"remove_tasks", "force_trigger_tasks", "set"}
+                                     THEN {c \in @ : c[1] \notin ev.ids} ELSE @]
+    [] ev.e = "remove" /\ ev.reason = "completed" -> [env EXCEPT !.completedIn = @ \cup {<<ev.t.id, ev.t.flows>>}]
+    [] ev.e = "prepare" /\ ev.t.id \in env.trig.ids ->
+         [env EXCEPT !.trig.n = [@ EXCEPT ![ev.t.id] = @ + 1]]
+    [] ev.e = "msg" ->
+         [env EXCEPT !.tainted = IF ev.flag = "received" /\ ev.inpool /\ ~ev.forced /\ ev.b.st = "waiting"
+                                     /\ ev.b.etry = 0 /\ ev.b.stry = 0
+                                     /\ <<ev.t.id, ev.sub, ev.msg>> \in env.seenMsgs /\ ev.t.st # ev.b.st
+                                  THEN @ \cup {ev.t.id} ELSE @,
+                     !.trig.done = @ \cup {<<Name(ev.t.id), Pt(ev.t.id), o>> : o \in ev.t.outs \ ev.b.outs},
+                     !.seenMsgs = IF ev.flag = "received" /\ "msg" \notin ev.cx
+                                  THEN @ \cup {<<ev.t.id, ev.sub, ev.msg>>} ELSE @,
+                     !.forcedSince = IF ev.forced THEN @ \cup {<<Name(ev.t.id), Pt(ev.t.id), o>> : o \in ev.t.outs \ ev.b.outs} ELSE @]
     [] ev.e = "state" /\ Opt.faults /\ "_submit_task_job_callback" \in ev.cx /\ ev.b.st # ev.t.st
           /\ ~Lifecycle(ev.b.st, ev.t.st, "_retry_task" \in ev.cx) ->
          [env EXCEPT !.tainted = @ \cup {ev.t.id}]    \* state corrupted by a stale submit callback (known finding)
@@ -450,6 +568,9 @@ Violations(ev) ==
     [] ev.e = "stall" -> Chk("C03_StallIsReal", StallViol(ev))
     [] ev.e = "end" -> EndViol(ev)
     [] ev.e = "boot" -> BootViol(ev)
+    [] ev.e = "merge" -> MergeViol(ev)
+    [] ev.e = "flow" -> FlowViol(ev)
+    [] ev.e = "cmd_done" -> CmdDoneViol(ev) \cup ReloadQueuedViol(ev)
     [] ev.e = "restored" -> RestoredViol(ev)
     [] ev.e = "env_launch" -> LaunchViol(ev)
     [] OTHER -> {}
@@ -467,6 +588,9 @@ Covered(ev) ==
     [] ev.e = "stall" -> {"C03_StallIsReal"}
     [] ev.e = "end" -> EndCov(ev)
     [] ev.e = "boot" -> BootCov(ev)
+    [] ev.e = "merge" -> Cov("C08_MergeIsUnion", ev.added # {} /\ ev.added # ev.before)
+    [] ev.e = "flow" -> Cov("C08_NewFlowIsFresh", ev.asked = -1 /\ env.flowsEver # {})
+    [] ev.e = "cmd_done" -> CmdDoneCov(ev)
     [] ev.e = "restored" -> RestoredCov(ev)
     [] ev.e = "env_launch" -> {"C20_NoDuplicateSubmitNum"} \cup Cov("C20_NoRerunInFlow", env.downkind = "crash")
     [] OTHER -> {}
@@ -478,7 +602,9 @@ Init == /\ tid \in DOMAIN Runs
         /\ done = {}
         /\ hist = <<>>
         /\ env = [stop |-> NoPoint, tohold |-> {}, holdpt |-> NoPoint, restarted |-> FALSE, incomplete |-> FALSE,
-                  prestop |-> <<>>, prescal |-> <<>>, downkind |-> "none", committed |-> {}, poolcommitted |-> FALSE, lostAtCrash |-> {}, earlyCrash |-> FALSE, hadStopTask |-> FALSE, hadDup |-> FALSE, committedAtCrash |-> {}, jobsSinceBoot |-> {}, spawnedSinceBoot |-> {}, jobs |-> {}, succeeded |-> {}, failedjobs |-> {}, tainted |-> {}, flowctr |-> 0]
+                  prestop |-> <<>>, prescal |-> <<>>, downkind |-> "none", committed |-> {}, poolcommitted |-> FALSE, lostAtCrash |-> {}, earlyCrash |-> FALSE, hadStopTask |-> FALSE, hadDup |-> FALSE, committedAtCrash |-> {}, jobsSinceBoot |-> {}, spawnedSinceBoot |-> {}, jobs |-> {}, succeeded |-> {}, failedjobs |-> {}, tainted |-> {}, seenMsgs |-> {}, flowsEver |-> {},
+                  trig |-> [ids |-> {}, done |-> {}, n |-> <<>>, dflt |-> FALSE, live |-> {}], cmdpre |-> <<>>, cmdname |-> "none", cmdids |-> {},
+                  cmdflow |-> {}, forcedSince |-> {}, completedIn |-> {}, flowctr |-> 0]
         /\ viol = {}
         /\ cov = {}
 
